@@ -792,9 +792,9 @@ impl Engine for TrackerEngine {
             ("C05", false) => 1000,
             ("C05", true) => 50_000,
             ("C06", false) => 1500,
-            ("C06", true) => 80_000,
+            ("C06", true) => 50_000,
             ("C13", false) => 1500,
-            ("C13", true) => 60_000,
+            ("C13", true) => 25_000,
             ("C12", false) => 2000,
             ("C12", true) => 100_000,
             (_, false) => 1500,
